@@ -22,7 +22,13 @@ import (
 // still parked" and "descriptor still open" must persist over 3 s of polling
 // with forced GCs before they count.
 
-func init() { register("C09/pasv", driver{run: runC09Pasv, needsStorage: true, noBubble: true}) }
+func init() {
+	register("C09/pasv", driver{run: func(c *core.Ctx) { runPasv(c, "C09") }, needsStorage: true, noBubble: true})
+	// the same sessions for C01: the goroutines of the passive sockets run outside the server's
+	// per-connection recover, so a panic there ends the process; oracle = the worker survives and a
+	// fresh control connection is greeted after every scenario
+	register("C01/pasv", driver{run: func(c *core.Ctx) { runPasv(c, "C01") }, needsStorage: true, noBubble: true})
+}
 
 func waitUntil(cap time.Duration, f func() bool) bool {
 	deadline := time.Now().Add(cap)
@@ -65,30 +71,37 @@ func portOpen(port int) bool {
 	return true
 }
 
-func runC09Pasv(c *core.Ctx) {
+func runPasv(c *core.Ctx, prop string) {
 	type scenario struct {
 		name string
 		cmds []string // commands after login; PASV/EPSV ports are collected
 		dial bool     // connect to the last passive port and read a LIST
 		end  string   // QUIT | close
+		idle bool     // connect to the last passive port and send no transfer command
 	}
 	scs := []scenario{
-		{"PASV never connected, QUIT", []string{"PASV"}, false, "QUIT"},
-		{"PASV never connected, client close", []string{"PASV"}, false, "close"},
-		{"EPSV never connected, QUIT", []string{"EPSV"}, false, "QUIT"},
-		{"PASV x3 never connected, QUIT", []string{"PASV", "PASV", "EPSV"}, false, "QUIT"},
-		{"PASV, LIST over the data connection, QUIT", []string{"PASV"}, true, "QUIT"},
-		{"PASV, LIST over the data connection, client close", []string{"PASV"}, true, "close"},
+		{"PASV never connected, QUIT", []string{"PASV"}, false, "QUIT", false},
+		{"PASV never connected, client close", []string{"PASV"}, false, "close", false},
+		{"EPSV never connected, QUIT", []string{"EPSV"}, false, "QUIT", false},
+		{"PASV x3 never connected, QUIT", []string{"PASV", "PASV", "EPSV"}, false, "QUIT", false},
+		{"PASV, LIST over the data connection, QUIT", []string{"PASV"}, true, "QUIT", false},
+		{"PASV, LIST over the data connection, client close", []string{"PASV"}, true, "close", false},
+		{"PASV, data connection opened but never used, QUIT", []string{"PASV"}, false, "QUIT", true},
+		{"PASV, data connection opened but never used, client close", []string{"PASV"}, false, "close", true},
+		{"PASV, data connection opened, PASV again, QUIT", []string{"PASV", "connect", "PASV"}, false, "QUIT", false},
 	}
 	if c.Thorough() {
 		// the data command gives up when the passive listener's 30 s (real) deadline passes
-		scs = append(scs, scenario{"PASV then LIST never connected, close", []string{"PASV", "LIST"}, false, "close"})
+		scs = append(scs, scenario{"PASV then LIST never connected, close", []string{"PASV", "LIST"}, false, "close", false})
 	}
 	for si, sc := range scs {
 		sc := sc
 		for _, n := range []int{1, 5, 20} {
 			n := n
-			if n > 1 && si > 3 {
+			if n > 1 && si > 3 && !sc.idle {
+				continue
+			}
+			if prop == "C01" && n == 20 {
 				continue
 			}
 			c.Case(fmt.Sprintf("pasv/%s/x%d", sc.name, n), func() {
@@ -98,6 +111,12 @@ func runC09Pasv(c *core.Ctx) {
 				base := honeytrapGoroutines()
 				fd0 := fdCount()
 				var ports []int
+				var idleConns []net.Conn
+				defer func() {
+					for _, ic := range idleConns {
+						ic.Close()
+					}
+				}()
 				for i := 0; i < n; i++ {
 					ctl := &ftpCtl{conn: dial(s, "ftp", i%5)}
 					waitUntil(20*time.Second, func() bool { return len(ctl.conn.Output()) > 0 })
@@ -105,6 +124,13 @@ func runC09Pasv(c *core.Ctx) {
 					ctl.cmd("PASS anonymous", "230")
 					last := 0
 					for _, cm := range sc.cmds {
+						if cm == "connect" {
+							if raw, err := net.DialTimeout("tcp", fmt.Sprintf("127.0.0.1:%d", last), 5*time.Second); err == nil {
+								idleConns = append(idleConns, raw)
+							}
+							time.Sleep(20 * time.Millisecond)
+							continue
+						}
 						if cm == "LIST" {
 							ctl.conn.Send([]byte("LIST\r\n"))
 							time.Sleep(20 * time.Millisecond)
@@ -132,16 +158,43 @@ func runC09Pasv(c *core.Ctx) {
 							dc.Close()
 						}
 					}
+					if sc.idle && last != 0 {
+						// the data connection is accepted (the passive socket accepts one connection and
+						// closes its listener: a refused second dial proves ours was taken) and then left alone
+						if raw, err := net.DialTimeout("tcp", fmt.Sprintf("127.0.0.1:%d", last), 5*time.Second); err == nil {
+							idleConns = append(idleConns, raw)
+							waitUntil(10*time.Second, func() bool { return !portOpen(last) })
+						}
+					}
 					if sc.end == "QUIT" {
 						ctl.cmd("QUIT", "221")
 					} else {
 						ctl.conn.CloseWrite()
 					}
-					if !waitUntil(75*time.Second, ctl.conn.Closed) {
+					if !waitUntil(75*time.Second, ctl.conn.Closed) && prop == "C09" {
 						c.Violationf("C09:ftp:handler-not-finished:pasv", "ftp: %s: control connection not closed by the server 75 s after %s", sc.name, sc.end)
 					}
 				}
+				// our ends of the unused data connections go away too; what the server holds must follow
+				for _, ic := range idleConns {
+					ic.Close()
+				}
+				idleConns = nil
 				c.Count("executions", 1)
+				if prop == "C01" {
+					// the accept goroutines give up at their 30 s deadline at the latest: wait for the ones of
+					// unconnected sockets in the thorough tier, then the process must still greet a client
+					if c.Thorough() && !sc.dial && !sc.idle {
+						time.Sleep(31 * time.Second)
+					}
+					probe := dial(s, "ftp", 7)
+					if !waitUntil(30*time.Second, func() bool { return len(probe.Output()) > 0 }) {
+						c.Violationf("C01:pasv:not-serving", "ftp: %s (x%d): a fresh control connection was not greeted within 30 s after the scenario", sc.name, n)
+					}
+					probe.CloseWrite()
+					c.Outcome("pasv", sc.name, fmt.Sprint(n))
+					return
+				}
 				if len(ports) == 0 {
 					// e.g. EPSV on an IPv4 control connection is refused with 425: nothing to release
 					c.Class("no passive port announced: " + sc.name)
